@@ -445,7 +445,7 @@ def c16(tier):
 def c15(tier):
     q = tier == 'quick'
     S = lambda name, what, **P: Spec(name, 'checks.timers', 'run_timers', dict(P, xval_stride=P.get('xval_stride', 37)), what=what, logic=None, chunk=60)
-    K = 3 if q else 5
+    K = 3 if q else 4
     specs = []
     W = ('real run loop on a virtual clock (symbolic non-decreasing Real); clock advances only in the selector wait by a symbolic dt in [0, poll] '
          '(= poll iff nothing arrived); poll symbolic; %d loop iterations each with a solver-chosen server action; ' % K)
